@@ -272,7 +272,8 @@ def run(ctx, rep):
     fn_free = F.fn('object::Object::free')
     H3 = set()
     for p in AbsInt(F, fn_free).run():
-        var = [c[1] for c in p.constraints if c[0][0] == 'variant' and c[0][2] == TYPE]
+        from rules.unsafe_inv import tag_facts
+        var = sorted({ty for o_, ty in tag_facts(p)})     # `match self.tag()` arms and `tag == Type::X` tests alike
         calls = [c[1] for c in p.calls if c[1].endswith('::destroy')]
         if calls and var:
             for v in var:
